@@ -380,6 +380,9 @@ def where(op, condition, input, other):
     float_data = op(condition, input.dequantize(), other)
     if input.axis is None and float_data.dtype == input.dtype:
         # (an alternative of a wider float dtype promotes the result: it cannot be expressed with the input scale)
-        # We requantize with the input scale
-        return quantize_activation(float_data, qtype=input.qtype, scale=input._scale)
+        qmax = dtype_info(input.qtype.dtype).max
+        if torch.all(float_data.abs() <= qmax * input._scale):
+            # (... nor can an alternative beyond the range of the input, such as a mask value: it would saturate)
+            # We requantize with the input scale
+            return quantize_activation(float_data, qtype=input.qtype, scale=input._scale)
     return float_data
